@@ -1114,6 +1114,7 @@ def skymask(invvar, andmask, ormask=None, ngrow=2):
     redmonster = sdss_flagval('SPPIXMASK', 'REDMONSTER')
     # brightsky = sdss_flagval('SPPIXMASK', 'BRIGHTSKY')
     if ormask is not None:
+        ormask = ormask.astype(np.uint64)
         badmask = badmask | ((ormask & badskychi) != 0)
         badmask = badmask | ((ormask & redmonster) != 0)
         # badmask = badmask | ((andmask & brightsky) != 0)
